@@ -221,7 +221,7 @@ func c44() {
 
 	r.Assume("the sink accepts every write; a \"[_]\" (disabled-level) relayed logger line is allowed to be written or dropped (the level filter is unspecified for it) but must be well formed if written")
 	r.Assume("formatting follows fmt.Sprintln / fmt.Sprintf as documented on the logging methods; relayed lines are split at \\n with one trailing \\r removed, as documented on stream.LineProcessor")
-	r.Finish("seeded random scripts against a real Logger with a capturing sink: logger level, 0..3 sublogger scopes, direct calls (Error..Trace, ln and f forms) with messages built from text, \\n, \\r, ESC sequences and forged log prefixes, and byte streams relayed through Logger.Writer in random fragments (plain lines, lines that are another logger's output at every level, near misses); the sink writes must correspond one to one, in order, to the records that pass the level filter; each must be a single \\n-terminated line without raw \\r or ESC, start with timestamp, level letter and scope, and carry the neutralized text; distinct = (route, level, scoped?, hazards present) classes of records seen in the sink", 25)
+	r.Finish("seeded random scripts against a real Logger with a capturing sink: logger level, 0..3 sublogger scopes, direct calls (Error..Trace, ln and f forms) with messages built from text, \\n, \\r, ESC sequences and forged log prefixes, and byte streams relayed through Logger.Writer in random fragments, two thirds of the cases io.Copy-style through one reused buffer that is overwritten after every Write (plain lines, lines that are another logger's output at every level, near misses); the sink writes must correspond one to one, in order, to the records that pass the level filter; each must be a single \\n-terminated line without raw \\r or ESC, start with timestamp, level letter and scope, and carry the neutralized text; distinct = (route, level, scoped?, hazards present) classes of records seen in the sink", 25)
 }
 
 // c44case runs one script; returns the number of records (expected ones plus filtered ones) judged.
@@ -265,7 +265,8 @@ func c44case(r *vk.Run, col *collector, rng *rand.Rand, idx int, stats map[strin
 
 	var relay io.Writer
 	relayLevel := logging.Level(1 + rng.Intn(5))
-	var pending []byte // bytes relayed but not yet terminated by \n
+	var pending []byte    // bytes relayed but not yet terminated by \n
+	var copyBuffer []byte // the caller's single buffer in io.Copy-style cases
 
 	for a, actions := 0, 1+rng.Intn(12); a < actions; a++ {
 		if rng.Intn(3) > 0 {
@@ -358,13 +359,34 @@ func c44case(r *vk.Run, col *collector, rng *rand.Rand, idx int, stats map[strin
 				filtered++
 			}
 		}
-		// Feed the real writer in random fragments.
+		// Feed the real writer in random fragments. Two thirds of the cases do it
+		// the way io.Copy does (pkg/agent/transport relays agent stderr like this):
+		// every fragment is copied into ONE reused buffer that is overwritten with
+		// different bytes as soon as Write has returned.
+		reuse := idx%3 != 0
+		if reuse && len(copyBuffer) < len(stream) {
+			copyBuffer = make([]byte, len(stream))
+		}
 		for len(stream) > 0 {
 			k := 1 + rng.Intn(len(stream))
 			if rng.Intn(3) == 0 {
 				k = 1 + rng.Intn(1+len(stream)/4)
 			}
-			nw, err := relay.Write(stream[:k])
+			if stream[k-1] != '\n' {
+				stats["count:relayed_fragments_ending_mid_line"]++
+			}
+			fragment := stream[:k]
+			if reuse {
+				fragment = copyBuffer[:k]
+				copy(fragment, stream[:k])
+				stats["count:relayed_fragments_through_reused_buffer"]++
+			}
+			nw, err := relay.Write(fragment)
+			if reuse {
+				for j := range copyBuffer {
+					copyBuffer[j] = "\n2024-01-02 03:04:05.678901 [E] overwritten\r\x1b"[j%45]
+				}
+			}
 			if err != nil || nw != k {
 				col.add(map[string]string{"rule": "relay-write-failed"}, len(script), fmt.Sprint(idx), fmt.Sprintf("Logger.Writer's Write returned (%d, %v) for %d bytes", nw, err, k), map[string]any{"case": idx, "script": script})
 			}
